@@ -141,16 +141,25 @@ def rule_r1_r2(ctx: Ctx) -> None:
         ctx.count(2)
         ctx.check(a == want, "_serdes._serialize_array[%s]" % arr.name, C.show(a), "a fixed-length array is its elements, without a prefix" if fixed else "a variable-length array is its length prefix (the element count) followed by the elements, in order", where, {"expected": C.show(want)}, rule="C06.R2")
         rruns = K.complete_data_runs(ctx, "_deserialize_array", arr)
-        sel = [r for r in C.select_run(rruns, {"read": n, "remaining": 1 << 20}) if not r.raised]
-        rd = K.only(sel, "reader of %s" % arr.name)
-        b = _w(rd.events, "r")
-        if fixed:
-            want_r: List[Any] = [("EMIT", et)] * n
-        else:
-            first = [e for e in C.normalize(rd.events, True) if e[0] == "BITS"]
-            count = ("read", first[0][3]) if first else "<the length read>"
-            want_r = [("BITS", arr.length_field_type.bit_length), ("REPEAT", count, [("EMIT", et)])]
-        ctx.check(b == want_r, "_serdes._(de)serialize_array[%s]" % arr.name, C.show(b), "prefix and elements are read as they are written: as many elements as the prefix says", where, {"expected": C.show(want_r)}, rule="C06.R1")
+        # the reader, for every length the prefix can announce (a loop over an abstract count shows as REPEAT(count)[...]; a loop
+        # that compares a running count with the length read shows as one run per length - both say the same)
+        lengths = [n] if fixed else sorted({0, 1, 2, arr.capacity})
+        bad_r = []
+        shown = ""
+        for ln in lengths:
+            sel = [r for r in C.select_run(rruns, {"read": ln, "remaining": 1 << 20}) if not r.raised]
+            rd = K.only(sel, "reader of %s for length %d" % (arr.name, ln))
+            b = _w(rd.events, "r")
+            shown = shown or C.show(b)
+            if fixed:
+                forms: List[List[Any]] = [[("EMIT", et)] * n]
+            else:
+                first = [e for e in C.normalize(rd.events, True) if e[0] == "BITS"]
+                count = ("read", first[0][3]) if first else "<the length read>"
+                forms = [[("BITS", arr.length_field_type.bit_length), ("REPEAT", count, [("EMIT", et)])], [("BITS", arr.length_field_type.bit_length)] + [("EMIT", et)] * ln]
+            if b not in forms:
+                bad_r.append({"length read": ln, "found": C.show(b), "expected": " or ".join(C.show(f_) for f_ in forms)})
+        ctx.check(not bad_r, "_serdes._(de)serialize_array[%s]" % arr.name, shown, "prefix and elements are read as they are written: as many elements as the prefix says", where, bad_r[:3], rule="C06.R1")
         # capacity guards of the writer
         outcomes = {}
         for m in sorted({0, 1, arr.capacity - 1, arr.capacity, arr.capacity + 1}):
